@@ -118,6 +118,8 @@ def configured(history, epoch, key, default=None):
     epochs = scen.get("epochs") or [{}]
     if epoch < len(epochs):
         params.update(epochs[epoch].get("params", {}))
+        if epochs[epoch].get("replay") is not None:
+            params["replay"] = epochs[epoch]["replay"]
     return params.get(key, default)
 
 
@@ -527,4 +529,250 @@ def dedup(violations):
         if key not in seen:
             seen.add(key)
             out.append(v)
+    return out
+
+
+# --------------------------------------------------------------------------------------------
+# C10
+# --------------------------------------------------------------------------------------------
+
+ALL_STATUSES = ["fail", "error", "pass", "warn", "skip", "cancel", "interrupted", "unknown"]
+
+
+def retry_settings(history, epoch):
+    """The documented retry settings in force (valid settings only)."""
+    replay = configured(history, epoch, "replay")
+    raw_tries = configured(history, epoch, "max_tries")
+    max_tries = int(raw_tries) if raw_tries is not None else (2 if replay else 1)
+    raw_rerun = configured(history, epoch, "rerun_status")
+    if replay:
+        rerun = [s for s in (raw_rerun if raw_rerun is not None else "fail,error,warn").split(",") if s]
+    else:
+        rerun = (raw_rerun or "").split() or list(ALL_STATUSES)
+    stop = (configured(history, epoch, "stop_status") or "").split()
+    return max_tries, set(rerun), set(stop)
+
+
+def again(statuses, max_tries, rerun, stop):
+    """The documented rule: try again while tries remain, all statuses in rerun, none in stop.
+
+    Executions still in flight ("unknown") use up tries but have no status yet: whether they
+    block a concurrent try is left open by the documentation, so they never make a try unowed.
+    """
+    completed = [s for s in statuses if s != "unknown"]
+    if set(completed) - rerun:
+        return False
+    if set(completed) & stop:
+        return False
+    if max_tries == 1:
+        return False
+    return max_tries - len(statuses) > 0
+
+
+def recorded_status_by_serial(ending):
+    out = {}
+    for r in ending.get("node_results", []):
+        if r.get("serial") is not None:
+            out.setdefault(r["serial"], []).append(r["status"])
+    return out
+
+
+def check_C10(history):
+    out = []
+    scen = history["scenario"]
+    epochs_cfg = scen.get("epochs") or [{}]
+    endings = {e["epoch"]: e for e in history["endings"]}
+    by_epoch = epochs_of(history)
+    for epoch, events in by_epoch.items():
+        ending = endings.get(epoch)
+        if ending is None:
+            continue
+        invalid = scen.get("expect_value_error")
+        execs = executions(events)
+        if invalid:
+            ok = ending["how"] == "raised" and ending.get("error_type") == "ValueError"
+            if not ok:
+                out.append(V("C10", "invalid-accepted", f"invalid retry settings were not rejected ({invalid})",
+                             how=ending["how"], error=ending.get("error")))
+            # nothing may be executed again once an execution of it has ended (that is where the
+            # settings are evaluated); simultaneous first tries by several workers are not retries
+            atts = merged_attempts(execs)
+            for att in atts:
+                if any(o["cls"] == att["cls"] and o["end_seq"] < att["start_seq"] for o in atts):
+                    out.append(V("C10", "invalid-retried",
+                                 f"{att['label']} was repeated under invalid retry settings ({invalid})"))
+            continue
+        if ending["how"] not in ("completed", "crashed"):
+            continue  # termination problems are C02's business
+        max_tries, rerun, stop = retry_settings(history, epoch)
+        recorded = recorded_status_by_serial(ending)
+
+        # (a) distinct identifiers among the executions of one (worker specific) test name
+        seen = {}
+        for ex in execs:
+            st = ex["start"]
+            key = (st["name"], st["uid"])
+            if key in seen:
+                out.append(V("C10", "duplicate-uid",
+                             f"repeated executions of {st['label']} carry the same identifier",
+                             name=st["name"], uid=st["uid"], serials=[seen[key], st["serial"]]))
+            else:
+                seen[key] = st["serial"]
+
+        # (b) each execution reads its own result
+        if ending["how"] == "completed":
+            for ex in execs:
+                st, end = ex["start"], ex["end"]
+                if end is None or ex["crashed"]:
+                    continue
+                if is_creation_prestep(st):
+                    continue  # the configuration step is not a node of the graph; its failure is kept with the root
+                got = recorded.get(st["serial"], [])
+                if end.get("lost"):
+                    continue
+                if len(got) != 1:
+                    out.append(V("C10", "foreign-result",
+                                 f"an execution of {st['label']} did not record its own result exactly once",
+                                 serial=st["serial"], recorded=got, assigned=end["status"]))
+                    continue
+                if got[0] != end["status"] and not (end["status"] == "PASS" and got[0] == "WARN"):
+                    out.append(V("C10", "wrong-status",
+                                 f"an execution of {st['label']} recorded another status than it ended with",
+                                 serial=st["serial"], recorded=got[0], assigned=end["status"]))
+
+        # (c) the retry rule, per (class, reuse scope)
+        prev = previous_results(history, epoch)
+        attempts = merged_attempts(execs)
+        groups = {}
+        for att in attempts:
+            stateful = bool(att["start"]["sets"]) or att["creation"]
+            scope = att["scope"] if stateful else ("global",)
+            groups.setdefault((att["cls"], scope), []).append(att)
+        for (cls, scope), atts in groups.items():
+            atts.sort(key=lambda a: a["start_seq"])
+            stateful = bool(atts[0]["start"]["sets"]) or atts[0]["creation"]
+            previous = [s for (c, w, s) in prev if same_class(c, cls) and in_scope(w, scope)]
+            for i, att in enumerate(atts):
+                # what the deciding worker could know when this attempt started
+                known = list(previous)
+                for other in atts[:i]:
+                    if other["end_seq"] < att["start_seq"]:
+                        known.append(recorded_attempt_status(other, recorded))
+                    else:
+                        known.append("unknown")
+                if i == 0 and not known:
+                    continue  # first execution: decided by the selection / the state scan
+                if stateful and not any(o["end_seq"] < att["start_seq"] for o in atts[:i]):
+                    # nobody of the scope finished it yet: decided by the state scan
+                    # (a missing state overrides previous results)
+                    continue
+                if not again(known, max_tries, rerun, stop):
+                    out.append(V("C10", "unowed-retry",
+                                 f"{att['label']} was executed again although the retry rule forbids it",
+                                 cls=cls, scope=scope, known=known, max_tries=max_tries, rerun=sorted(rerun),
+                                 stop=sorted(stop), worker=att["worker"], seq=att["start_seq"]))
+            if ending["how"] == "completed" and not dry_run(history, epoch):
+                final = list(previous) + [recorded_attempt_status(a, recorded) for a in atts]
+                if again(final, max_tries, rerun, stop):
+                    out.append(V("C10", "dropped-retry",
+                                 f"{atts[0]['label']} was not executed again although the retry rule demands it",
+                                 cls=cls, scope=scope, statuses=final, max_tries=max_tries, rerun=sorted(rerun),
+                                 stop=sorted(stop)))
+        # replay: a class with an acceptable previous result and nothing missing is not executed
+        if configured(history, epoch, "replay"):
+            for (c, w, s) in prev:
+                pass  # covered by (c): a first execution with previous results obeys ``again``
+            for (cls, scope), atts in groups.items():
+                stateful = bool(atts[0]["start"]["sets"]) or atts[0]["creation"]
+                previous = [s for (c, w, s) in prev if same_class(c, cls) and in_scope(w, scope)]
+                if previous and not stateful and not again(previous, max_tries, rerun, stop):
+                    out.append(V("C10", "replay-reexecuted",
+                                 f"{atts[0]['label']} has an acceptable previous result but was executed again",
+                                 cls=cls, previous=previous))
+            # a stateless test without an acceptable previous result (and tries left) is executed
+            if ending["how"] == "completed" and not dry_run(history, epoch):
+                executed = {cls for (cls, scope) in groups}
+                seen_prev = {}
+                for (c, w, s) in prev:
+                    seen_prev.setdefault(c, []).append(s)
+                stateless_prev = stateless_classes(history)
+                for c, statuses in seen_prev.items():
+                    if c in executed or c not in stateless_prev:
+                        continue
+                    if again(statuses, max_tries, rerun, stop):
+                        out.append(V("C10", "replay-not-executed",
+                                     f"{short(c)} has no acceptable previous result but was not executed again",
+                                     cls=c, previous=statuses, max_tries=max_tries))
+        # (d) verdict
+        if ending["how"] == "completed" and isinstance(ending.get("all_results_ok"), bool):
+            by_name = {}
+            for r in ending.get("results", []):
+                by_name.setdefault(r["name"], []).append(r["status"])
+            want = all(any(OK_STATUS.get(s, False) for s in sts) for sts in by_name.values())
+            if want != ending["all_results_ok"]:
+                out.append(V("C10", "wrong-verdict", "the run verdict disagrees with the executed tests' results",
+                             verdict=ending["all_results_ok"], expected=want,
+                             failing=[n for n, sts in by_name.items() if not any(OK_STATUS.get(s, False) for s in sts)][:3]))
+    return dedup(out)
+
+
+def dry_run(history, epoch):
+    return str(configured(history, epoch, "dry_run", "no")) == "yes"
+
+
+def same_class(previous_cls, cls):
+    """Does a previous result's class belong to this group (creation groups: the object root node)."""
+    if cls.startswith("create:"):
+        variant = cls[len("create:"):].partition("-")[2]
+        return re.search(r"(\.|^)original(\.|$)", previous_cls) is not None and ("." + variant + ".") in previous_cls
+    return previous_cls == cls
+
+
+def stateless_classes(history):
+    """Classes seen executing without producing any state (in any epoch)."""
+    out = set()
+    for ev in history["events"]:
+        if ev["kind"] == "start" and not ev["sets"] and not ev.get("object_root"):
+            out.add(ev["cls"])
+    return out
+
+
+def recorded_attempt_status(att, recorded):
+    """Status the traversal recorded for an attempt (a creation attempt: its last part)."""
+    last = att["parts"][-1]
+    got = recorded.get(last["start"]["serial"])
+    if got:
+        return got[0].lower()
+    if last["end"] is not None and last["end"].get("lost"):
+        return "error"
+    return (last["status"] or "unknown").lower()
+
+
+def in_scope(worker, scope):
+    if scope[0] == "global":
+        return True
+    if scope[0] == "worker":
+        return worker == scope[1]
+    swarm = worker.split(".")[0] if "." in worker else "localhost"
+    return swarm == scope[1]
+
+
+def previous_results(history, epoch):
+    """(class, worker, status) of the results a replayed job left behind."""
+    from travsim.harness import test_class
+    scen = history["scenario"]
+    epochs_cfg = scen.get("epochs") or [{}]
+    cfg = epochs_cfg[epoch] if epoch < len(epochs_cfg) else {}
+    out = []
+    if cfg.get("replay") is None:
+        return out
+    wanted = str(cfg["replay"]).split()
+    for ending in history["endings"]:
+        if f"job{ending['epoch']}" in wanted:
+            for r in ending.get("results", []):
+                m = re.search(r"\.nets\.([A-Za-z0-9_]+)\.([A-Za-z0-9_]+)", r["name"])
+                worker = None
+                if m:
+                    worker = m.group(2) if m.group(1) == "localhost" else m.group(1) + "." + m.group(2)
+                out.append((test_class(r["name"]), worker, r["status"].lower()))
     return out
